@@ -22,6 +22,8 @@ package planar
 //@ func rayIntersect(p, s, e) (intersects, on)
 //@   pure
 //@   ensures on ==> !intersects
+//@   ensures nonanP(p) && nonanP(s) && nonanP(e) && ((p[0] == s[0] && p[1] == s[1]) || (p[0] == e[0] && p[1] == e[1])) ==> on
+//@   ensures nonanP(p) && nonanP(s) && nonanP(e) && s[0] == e[0] && p[0] == s[0] && ((s[1] <= p[1] && p[1] <= e[1]) || (e[1] <= p[1] && p[1] <= s[1])) ==> on
 
 // RingContains is a pure, deterministic function of the ring's vertices and the point (`function`):
 // the polygon and multi-polygon tests are stated in terms of it.
